@@ -150,14 +150,14 @@ def build_lib(flavour, extra_defs=(), quiet=True):
 
 
 def _prune(tag, keep):
-    """keep at most two generations per flavour tag (disk is limited)"""
+    """keep a few generations per flavour tag (VERIF_KEEP_GENERATIONS, default 6) (disk is limited)"""
     try:
         ds = [os.path.join(BUILD, x) for x in os.listdir(BUILD)
               if re.fullmatch(re.escape(tag) + r"-[0-9a-f]{16}", x)]
     except OSError:
         return
     ds = sorted((x for x in ds if x != keep), key=lambda x: os.path.getmtime(x), reverse=True)
-    for x in ds[max(1, int(os.environ.get("VERIF_KEEP_GENERATIONS", "2")) - 1):]:
+    for x in ds[max(1, int(os.environ.get("VERIF_KEEP_GENERATIONS", "6")) - 1):]:
         shutil.rmtree(x, ignore_errors=True)
 
 
